@@ -22,6 +22,7 @@ import (
 	"github.com/IrineSistiana/mosdns/v5/pkg/server"
 	"github.com/IrineSistiana/mosdns/v5/pkg/utils"
 	"github.com/miekg/dns"
+	"github.com/quic-go/quic-go"
 	"pgregory.net/rapid"
 
 	"verif/harness/hx"
@@ -602,7 +603,7 @@ func genSrv(t *rapid.T) SrvCase {
 	c.Sizes = rapid.SliceOfN(rapid.SampledFrom([]int{30, 100, 500, 1400, 8000, 8200, 16500, 40000, 60000}), 1, 6).Draw(t, "sizes")
 	c.Transport = "mem"
 	if hx.Thorough() {
-		c.Transport = rapid.SampledFrom([]string{"mem", "mem", "tcp", "tls"}).Draw(t, "transport")
+		c.Transport = rapid.SampledFrom([]string{"mem", "mem", "tcp", "tls", "doq"}).Draw(t, "transport")
 	}
 	return c
 }
@@ -612,7 +613,91 @@ var (
 	tlsCert  tls.Certificate
 )
 
+// runDoQ: one query per stream against server.ServeDoQ on loopback; every stream must carry
+// exactly one intact frame.
+func runDoQ(c SrvCase, ctx *hx.Ctx) *hx.Failure {
+	h := &gateHandler{n: c.N, sizes: c.Sizes, gate: make(chan struct{}), want: map[uint16][]byte{}}
+	certOnce.Do(func() {
+		cert, err := utils.GenerateCertificate("c16.test")
+		if err != nil {
+			panic(err)
+		}
+		tlsCert = cert
+	})
+	ln, err := quic.ListenAddr("127.0.0.1:0", &tls.Config{Certificates: []tls.Certificate{tlsCert}, NextProtos: []string{"doq"}}, &quic.Config{MaxIncomingStreams: 200})
+	if err != nil {
+		ctx.Class("skipped:no-quic-listener")
+		return nil
+	}
+	defer ln.Close()
+	go server.ServeDoQ(ln, h, server.DoQServerOpts{})
+	dctx, cancel := context.WithTimeout(context.Background(), 20*time.Second)
+	defer cancel()
+	conn, err := quic.DialAddr(dctx, ln.Addr().String(), &tls.Config{InsecureSkipVerify: true, NextProtos: []string{"doq"}}, &quic.Config{})
+	if err != nil {
+		return hx.Failf("C16/harness", "quic dial: %v", err)
+	}
+	defer conn.CloseWithError(0, "")
+	type res struct {
+		frame []byte
+		rest  int
+		err   error
+	}
+	out := make(chan res, c.N)
+	for i := 0; i < c.N; i++ {
+		go func(i int) {
+			st, err := conn.OpenStreamSync(dctx)
+			if err != nil {
+				out <- res{err: err}
+				return
+			}
+			q := new(dns.Msg)
+			q.Id = uint16(1000 + i)
+			q.Question = []dns.Question{{Name: fmt.Sprintf("q%d.c16.example.", i), Qtype: dns.TypeTXT, Qclass: dns.ClassINET}}
+			w, _ := q.Pack()
+			st.Write(append(binary.BigEndian.AppendUint16(nil, uint16(len(w))), w...))
+			st.Close()
+			all, err := io.ReadAll(st)
+			if len(all) < 2 {
+				out <- res{err: fmt.Errorf("stream carried %d bytes (%v)", len(all), err)}
+				return
+			}
+			l := int(all[0])<<8 | int(all[1])
+			if len(all)-2 < l {
+				out <- res{err: fmt.Errorf("stream announces %d bytes and carries %d", l, len(all)-2)}
+				return
+			}
+			out <- res{frame: all[2 : 2+l], rest: len(all) - 2 - l}
+		}(i)
+	}
+	var frames [][]byte
+	for i := 0; i < c.N; i++ {
+		select {
+		case r := <-out:
+			if r.err != nil {
+				return hx.Failf("C16/stream-broken", "DoQ: %v", r.err)
+			}
+			if r.rest != 0 {
+				return hx.Failf("C16/frame-bytes", "DoQ stream carries %d bytes after its frame", r.rest)
+			}
+			frames = append(frames, r.frame)
+		case <-time.After(30 * time.Second):
+			return hx.Failf("C16/stream-stalled", "DoQ: only %d of %d replies arrived", len(frames), c.N)
+		}
+	}
+	if f := compareFrames(h, frames, c); f != nil {
+		return f
+	}
+	ctx.Class("transport=doq")
+	ctx.Nontrivial(fmt.Sprintf("%v", c))
+	ctx.Sample(c)
+	return nil
+}
+
 func runSrv(c SrvCase, ctx *hx.Ctx) *hx.Failure {
+	if c.Transport == "doq" {
+		return runDoQ(c, ctx)
+	}
 	h := &gateHandler{n: c.N, sizes: c.Sizes, gate: make(chan struct{}), want: map[uint16][]byte{}}
 	var client net.Conn
 	var ln net.Listener
